@@ -96,7 +96,10 @@ template <class T> static void run_T(Choice &c, Ctx &cx)
         // column maxima of diag(R)*A with the returned R
         std::vector<LD> cmax(n, 0); bool degenerate = false;
         for (int j = 0; j < n; ++j) for (int_t p = S.ptr[j]; p < S.ptr[j + 1]; ++p) cmax[j] = std::max(cmax[j], abs1(widen<T>(S.val[p])) * (LD)r[S.idx[p]]);
-        for (int j = 0; j < n; ++j) if (cmax[j] > 0 && cmax[j] < sml) degenerate = true;     // product underflows in working precision
+        // a scaled maximum below a few subnormal ulps can round to zero in working precision (the library then reports a zero
+        // column, LAPACK-inherited): not judged.  A maximum that is subnormal but safely nonzero is judged: it must be clamped.
+        const LD dmin = (LD)std::numeric_limits<R>::denorm_min();
+        for (int j = 0; j < n; ++j) if (cmax[j] > 0 && cmax[j] < 8 * dmin) degenerate = true;
         if (degenerate) { cx.label("underflow-degenerate(column stage not judged)"); break; }
         int zcol = -1; for (int j = 0; j < n; ++j) if (cmax[j] == 0) { zcol = j; break; }
         if (zcol >= 0) {
